@@ -83,9 +83,9 @@ class CellVariable:
             phi_val = cell_value*np.ones(mesh_struct.dims)
         elif cell_value.size == 1:
             phi_val = cell_value*np.ones(mesh_struct.dims)
-        elif np.all(np.array(cell_value.shape)==mesh_struct.dims):
+        elif tuple(cell_value.shape) == tuple(mesh_struct.dims):
             phi_val = cell_value
-        elif np.all(np.array(cell_value.shape)==mesh_struct.dims+2):
+        elif tuple(cell_value.shape) == tuple(mesh_struct.dims+2):
             # Values for ghost cells already included,
             # simply fill
             self._value = TrackedArray(cell_value)
